@@ -24,6 +24,18 @@ class BudgetExceeded(BaseException):
     pass
 
 
+# The logging level the repository's modules see through the shim.  The runner sets it per case from the
+# case's digest (a pure function of the case, so replays reproduce): results must not depend on it.
+DEFAULT_LEVEL = _real_logging.WARNING
+LEVELS = (_real_logging.WARNING, _real_logging.DEBUG, _real_logging.WARNING, _real_logging.INFO)
+
+
+def set_level_for_case(digest_hex):
+    global DEFAULT_LEVEL
+    DEFAULT_LEVEL = LEVELS[int(digest_hex[:4], 16) % len(LEVELS)]
+    return DEFAULT_LEVEL
+
+
 class _Shim:
     DEBUG = _real_logging.DEBUG
     INFO = _real_logging.INFO
@@ -36,6 +48,7 @@ class _Shim:
         self.sweeps = 0        # "iteration" messages seen (all loops of the solve)
         self.steps = 0         # node Bellman steps seen
         self.per_sweep = None  # optional callback run at every sweep start (trajectory sampling)
+        self.level = DEFAULT_LEVEL           # what getLogger().getEffectiveLevel() reports (settable)
 
     def debug(self, msg, *a, **k):
         if type(msg) is str and msg.startswith("iteration "):
@@ -51,7 +64,7 @@ class _Shim:
     warning = error = critical = exception = log = info
 
     def getLogger(self, *a, **k):
-        return _NullLogger()
+        return _NullLogger(self)
 
     def basicConfig(self, *a, **k):
         pass
@@ -61,8 +74,18 @@ class _Shim:
 
 
 class _NullLogger:
+    def __init__(self, shim=None):
+        self._shim = shim
+
     def getEffectiveLevel(self):
-        return _real_logging.WARNING
+        return self._shim.level if self._shim is not None else _real_logging.WARNING
+
+    def isEnabledFor(self, level):
+        return level >= self.getEffectiveLevel()
+
+    @property
+    def level(self):
+        return self.getEffectiveLevel()
 
     def __getattr__(self, name):
         return lambda *a, **k: None
